@@ -24,8 +24,13 @@ package bgp
 //@   inline
 //@ func (*LsNLRI).Len
 //@   inline
+// a tunnel-encapsulation sub-TLV has a 2-octet length exactly when its type is 128 or above (RFC 9012 3); callers
+// use the clause
 //@ func (*TunnelEncapSubTLV).Len
-//@   inline
+//@   tag C05 C04
+//@   pure
+//@   modifies nothing
+//@   ensures result == (t.Type >= 128 ? 3 : 2) + int(t.Length)
 //@ func (*EVPNEthernetAutoDiscoveryRoute).DecodeFromBytes
 //@   claims bounds div0 make post
 //@   ensures result != nil ==> isMsgErr(result)
@@ -325,10 +330,12 @@ package bgp
 //@   claims bounds div0 make post
 //@   ensures result != nil ==> isMsgErr(result)
 //@ func (*flowSpecPrefix).DecodeFromBytes
-//@   claims bounds div0 make post
+//@   claims bounds div0 make post frame
+//@   modifies p.*, p.Prefix.*
 //@   ensures result != nil ==> isMsgErr(result)
 //@ func (*flowSpecPrefix6).DecodeFromBytes
-//@   claims bounds div0 make post
+//@   claims bounds div0 make post frame
+//@   modifies p.*, p.Prefix.*
 //@   ensures result != nil ==> isMsgErr(result)
 //@ func ParseAs4Value
 //@   claims bounds div0 make
